@@ -1147,7 +1147,7 @@ def build(only=None, name="archs"):
                Hint("after", CF3_PROOF, anchor=r"let \(type_id, identifier\) = source\.type_id_lookup\.vx_nth_pair\(vx_i3, vx_keys3\)"),
                Hint("end", CF_END),
            ],
-           props=["C10", "C13", "C01", "C04"]),
+           props=["C10", "C13", "C01", "C04", "C16"]),
     ])
 
     FILTER = lambda m, k: (r"for (\w+) in self\s*\.%s\s*\.iter\(\)\s*\.filter_map\(\|\(&%s, identifier\)\| \{\s*if identifiers_to_erase\.contains\(identifier\) \{\s*Some\(%s\)\s*\} else \{\s*None\s*\}\s*\}\)\s*\.collect::<Vec<_>>\(\)" % (m, k, k),
